@@ -38,10 +38,12 @@ ASSUMPTIONS = [
 ]
 FLOORS = {
     "quick": {"crash_none": 300, "crash_caller": 1000, "crash_caller_baseexception": 300, "crash_badarg": 500, "crash_missing_aborted": 50,
-              "crash_commit_write": 500, "abort_audits": 1500, "commit_audits": 300,
+              "crash_commit_write": 500, "abort_audits": 1500, "commit_audits": 300, "crash_reroot_old": 50,
+              "crash_reroot_missing": 100, "blocks_inside_except_handler": 500,
               "post_ops_twin_compared": 2000, "open_batch_db_events": 5000},
     "thorough": {"crash_none": 3000, "crash_caller": 10000, "crash_caller_baseexception": 3000, "crash_badarg": 5000,
                  "crash_missing_aborted": 500, "crash_commit_write": 5000, "abort_audits": 15000,
+                 "crash_reroot_old": 500, "crash_reroot_missing": 1000, "blocks_inside_except_handler": 5000,
                  "commit_audits": 3000, "post_ops_twin_compared": 20000, "open_batch_db_events": 50000},
 }
 
@@ -82,6 +84,8 @@ def _apply_untracked(trie, model, op, twin, twin_state):
 
 
 def _twin_apply(twin, op, twin_state):
+    if op[0] in ("sp", "badset"):
+        return  # an abandoned savepoint / a refused write: nothing happened
     try:
         k = unhx(op[1])
         if op[0] == "set":
@@ -125,8 +129,12 @@ def run_case(case, ctx):
     twin_db = {}
     twin = HexaryTrie(twin_db, prune=prune)
     twin_state = {"ok": True}
+    roots = []
     for op in case["pre"]:
         _apply_untracked(t, model, op, twin, twin_state)
+        roots.append((t.root_hash, dict(model)))
+    FOREIGN = RefTrie({b"not-in-this-database": b"v" * 40}).root_hash
+    old_root, old_model = roots[crash.get("pick", 0) % len(roots)] if roots else (None, None)
 
     sub = case["batch"]
     model0 = dict(model)
@@ -165,6 +173,10 @@ def run_case(case, ctx):
             state["open"] = True
             try:
                 for i, o in enumerate(sub):
+                    if kind == "reroot_old" and crash["at"] == i:
+                        b.root_hash = old_root
+                        bmodel.clear()
+                        bmodel.update(old_model)
                     if kind == "caller" and crash["after"] == i:
                         raise caller_exc()
                     if kind == "badarg" and crash["at"] == i:
@@ -173,11 +185,13 @@ def run_case(case, ctx):
                         if which == 0:
                             b.set(bad, b"v")
                         elif which == 1:
-                            b.set(unhx(o[1]), bad)
+                            b.set(unhx(o[1]) if o[0] != "sp" else b"k", bad)
                         else:
                             b.delete(bad)
                         raise Violation("batch-badarg-accepted", "bad argument %r accepted inside the block" % (bad,))
                     info["raised_at"] = i
+                    if kind == "missing" and o[0] == "sp":
+                        continue
                     if kind == "missing":
                         # let the trie's own exception propagate out of the block
                         k = unhx(o[1])
@@ -194,11 +208,27 @@ def run_case(case, ctx):
                 if kind == "badarg" and crash["at"] >= len(sub):
                     b.set(None, b"v")
                     raise Violation("batch-badarg-accepted", "None key accepted inside the block")
+                if kind == "reroot_old" and crash["at"] >= len(sub):
+                    b.root_hash = old_root
+                    bmodel.clear()
+                    bmodel.update(old_model)
+                if kind == "reroot_missing":
+                    b.root_hash = FOREIGN
                 info["final_root"] = b.root_hash
             finally:
                 state["open"] = False
 
-    res = cut(block, expect=hh.ALL_ABORTS + (ValidationError, MissingTrieNode, InjectedWriteFailure))
+    def block_in_handler():
+        # the same block, entered while the caller is handling an unrelated exception
+        try:
+            raise RuntimeError("unrelated exception being handled by the caller")
+        except RuntimeError:
+            return block()
+
+    if case.get("in_handler"):
+        ctx.count("blocks_inside_except_handler")
+    res = cut(block_in_handler if case.get("in_handler") else block,
+              expect=hh.ALL_ABORTS + (ValidationError, MissingTrieNode, InjectedWriteFailure))
     db.fail_write_at = None
     ctx.count("open_batch_db_events", state["events"])
     if db.pending_trace_violation is not None:
@@ -269,6 +299,19 @@ def run_case(case, ctx):
         outcome = "commit"
     else:
         # -------------------------------------------------------------------- normal exit
+        if kind == "reroot_missing":
+            # the batch ended on a root whose body is not in the database: the outer trie must
+            # still adopt it (it is "the batch's final root"); nothing old may be lost
+            if t.root_hash != FOREIGN:
+                raise Violation("batch-root", "the batch ended on root %s (assigned, body not in the database) but the outer root is %s" % (
+                    hx(FOREIGN), hx(t.root_hash)))
+            if not prune:
+                for k, v in before[1].items():
+                    if after[1].get(k) != v:
+                        raise Violation("batch-removed-existing", "entry %s present before the block was removed or changed" % hx(k))
+            ctx.count("crash_reroot_missing")
+            ctx.evaluated()
+            return {"commit_writes": commit_writes}
         ref = RefTrie(bmodel)
         if kind == "missing":
             # committed although bodies were removed: only the root claim is checked
@@ -291,14 +334,21 @@ def run_case(case, ctx):
                     raise Violation("batch-removed-existing", "entry %s present before the block was %s by the commit of a non-pruning trie" % (
                         hx(k), "removed" if k not in after[1] else "changed"))
         added = have - set(before[1])
-        if not added <= reach:
+        # (when the batch was pointed at another root by assignment, what it wrote before that
+        # is unreachable by construction: "no intermediate node is added" is a statement about
+        # batches that change their contents through set/delete only)
+        if kind != "reroot_old" and not added <= reach:
             raise Violation("batch-intermediate-leaked", "%d entr(ies) added by the commit are not part of the resulting trie" % len(added - reach))
         ctx.count("commit_audits")
-        ctx.count("crash_none" if kind == "none" else "crash_%s_nofault" % kind)
+        ctx.count("crash_none" if kind == "none" else ("crash_reroot_old" if kind == "reroot_old" else "crash_%s_nofault" % kind))
         model = bmodel
         if twin_state["ok"]:
-            for o in sub:
+            for i, o in enumerate(sub):
+                if kind == "reroot_old" and crash["at"] == i:
+                    twin.root_hash = old_root
                 _twin_apply(twin, o, twin_state)
+            if kind == "reroot_old" and crash["at"] >= len(sub):
+                twin.root_hash = old_root
         outcome = "commit"
 
     nontrivial = (outcome == "commit" and model != model0) or (
@@ -355,7 +405,13 @@ def gen_base(rnd, tier):
             pre.append(o)
     bk = set(keys)
     batch = []
-    for _ in range(rnd.randint(0, 5)):
+    big = tier_big(rnd, tier)
+    for _ in range(rnd.randint(250, 420) if big else rnd.randint(0, 5)):
+        if not big and rnd.random() < 0.1:
+            # a savepoint: an inner block on the batch trie, abandoned and caught inside the batch
+            sk = set(bk)
+            batch.append(["sp", [hh.gen_op(rnd, universe, pool, sk) for _ in range(rnd.randint(1, 3))]])
+            continue
         o = hh.gen_op(rnd, universe, pool, bk)
         hh._track(o, bk)
         batch.append(o)
@@ -366,12 +422,29 @@ def gen_base(rnd, tier):
         hh._track(o, pk)
         post.append(o)
     return {"engine": "c05", "prune": prune, "pseed": rnd.randrange(1 << 30), "pre": pre,
-            "batch": batch, "post": post, "universe": universe.kind}
+            "batch": batch, "post": post, "universe": universe.kind, "big": big,
+            "in_handler": rnd.random() < 0.25}
+
+
+def tier_big(rnd, tier):
+    """SCALE: now and then one batch of hundreds of operations (well over a thousand buffered
+    database entries)"""
+    return rnd.random() < (0.03 if tier == "quick" else 0.02)
 
 
 def crash_points(base, rnd, commit_writes):
     n = len(base["batch"])
     yield {"kind": "none"}
+    # the batch ends on a root it was pointed at by assignment (a public attribute; the
+    # repository's own tests do this): an earlier root of a non-pruning trie, or a root whose
+    # body is not in the database at all
+    if not base["prune"] and base["pre"]:
+        yield {"kind": "reroot_old", "at": rnd.randint(0, n), "pick": rnd.randrange(1000)}
+    yield {"kind": "reroot_missing"}
+    if base.get("big"):
+        yield {"kind": "caller", "after": n}
+        yield {"kind": "caller", "after": n // 2, "exc": 1}
+        return
     for i in range(n + 1):
         yield {"kind": "caller", "after": i}
         # the same crash point, left by an exception that is not an Exception
@@ -393,6 +466,8 @@ def run_shard(ctx):
     nbase = 45 if ctx.tier == "quick" else 450
     for i in range(nbase):
         base = gen_base(rnd, ctx.tier)
+        if base.get("big"):
+            ctx.count("big_batches")
         # dry run: number of writes the commit performs (crash point enumeration bound)
         c0 = dict(base)
         c0["crash"] = {"kind": "none"}
